@@ -9,14 +9,17 @@
   All statements are for every list / every argument; sortedness is the only hypothesis and is
   used exactly where the source exits a loop early.
 
-  Not proved here (kept visible): `replace_spec`, i.e.
-    `normalised (replace r kw) = normalised (construct (origArgs r ⊕ kw))`,
-  belongs to the constructor model of C01; in this check `replace()` is covered by the oracle
-  only (direct comparison on the implementation).
+  `replace()`: at the argument level (`replace_spec`, `replace_named_only`, `replace_nothing`):
+  the rule built is C01's constructor applied to the recorded arguments with exactly the named
+  parameters overridden.  The recorded arguments are read off the real object by the harness
+  (`query.replace` op); their derivation from the constructor model (`origArgs`, and
+  `construct (origArgs a (construct a)) ≈ construct a`) lives on C01's branch and is not on main yet,
+  so that link is correspondence + oracle here, not a theorem.
 -/
 import DateutilVerif.Proofs.Queries
 import DateutilVerif.Proofs.Islice
 import DateutilVerif.Proofs.QueryStops
+import DateutilVerif.Model.RRuleReplace
 
 namespace C12
 open Queries Py
@@ -111,6 +114,28 @@ theorem query_cache_independent (q : Query) (L : List Int) (hL : Sorted L) : gen
 theorem early_exit_sound (q : Query) (ys zs : List Int) (hL : Sorted (ys ++ zs)) (h : stops q ys = true) :
     gen q ys = spec q (ys ++ zs) := by
   rw [← gen_stops q ys zs h, gen_eq_spec q _ hL]
+
+/-- **replace_spec.** `r.replace(**kw)` is the constructor applied to the recorded arguments updated
+    by the named parameters (rrule.py 772-781: three dict operations and a constructor call). -/
+theorem replace_spec (orig : RRule.Args) (kw : RRule.Kw) :
+    RRule.replaceFrom orig kw = RRule.construct (RRule.merge orig kw) := rfl
+
+/-- a rule differing ONLY in the named parameters: every keyword that is not passed keeps the
+    recorded value, every keyword that is passed takes the given one -/
+theorem replace_named_only (o : RRule.Args) (kw : RRule.Kw) :
+    let m := RRule.merge o kw
+    m.freq = kw.freq.getD o.freq ∧ m.dtstart = kw.dtstart.getD o.dtstart ∧ m.tz = kw.tz.getD o.tz ∧
+    m.interval = kw.interval.getD o.interval ∧ m.wkst = kw.wkst.getD o.wkst ∧ m.count = kw.count.getD o.count ∧
+    m.untilDT = kw.untilDT.getD o.untilDT ∧ m.bysetpos = kw.bysetpos.getD o.bysetpos ∧
+    m.bymonth = kw.bymonth.getD o.bymonth ∧ m.bymonthday = kw.bymonthday.getD o.bymonthday ∧
+    m.byyearday = kw.byyearday.getD o.byyearday ∧ m.byeaster = kw.byeaster.getD o.byeaster ∧
+    m.byweekno = kw.byweekno.getD o.byweekno ∧ m.byweekday = kw.byweekday.getD o.byweekday ∧
+    m.byhour = kw.byhour.getD o.byhour ∧ m.byminute = kw.byminute.getD o.byminute ∧
+    m.bysecond = kw.bysecond.getD o.bysecond :=
+  ⟨rfl, rfl, rfl, rfl, rfl, rfl, rfl, rfl, rfl, rfl, rfl, rfl, rfl, rfl, rfl, rfl, rfl⟩
+
+/-- `r.replace()` with no keyword re-runs the constructor on the recorded arguments -/
+theorem replace_nothing (o : RRule.Args) : RRule.replaceFrom o {} = RRule.construct o := rfl
 
 -- non-vacuity: a concrete sorted list, both paths, negative indices, slices, early exits
 example : Sorted [0, 3, 6, 9, 12] := by decide
